@@ -19,6 +19,10 @@ pub struct StreamState {
 	pub pushed: u64,
 	pub loops: u64,
 	pub full: bool,
+	/// the decoder thread has returned End (stopped or reached the end of the data)
+	pub ended: bool,
+	/// number of errors the decoder has reported
+	pub errors: u64,
 	/// round (callback count) in which `full` / `parked` was last reported
 	pub seen_round: u64,
 	/// remaining decoder steps (None = unlimited)
@@ -32,6 +36,8 @@ pub struct StreamState {
 	pub epoch: u64,
 	/// hash of the decoder thread's id: ids (addresses) are reused after a thread has ended
 	pub thread: u64,
+	/// registration number: stamped when a new decoder thread is first seen under this id
+	pub reg: u64,
 }
 
 static CALLBACK_ACTIVE: AtomicBool = AtomicBool::new(false);
@@ -40,6 +46,7 @@ static REG: Mutex<Option<HashMap<usize, StreamState>>> = Mutex::new(None);
 static INSTALL: Once = Once::new();
 
 static EPOCH: AtomicU64 = AtomicU64::new(1);
+static REG_COUNTER: AtomicU64 = AtomicU64::new(1);
 /// incremented whenever a callback ends: a decoder is quiescent only if it reported a full ring
 /// (or an exhausted budget) after the last callback ended
 static ROUND: AtomicU64 = AtomicU64::new(1);
@@ -60,6 +67,7 @@ fn entry<'a>(r: &'a mut HashMap<usize, StreamState>, id: usize) -> &'a mut Strea
 		*st = StreamState {
 			thread: t,
 			epoch: EPOCH.load(Ordering::SeqCst),
+			reg: REG_COUNTER.fetch_add(1, Ordering::SeqCst) + 1,
 			..Default::default()
 		};
 	}
@@ -121,6 +129,12 @@ pub fn install() {
 				st.pushed += 1;
 				st.full = false;
 			}),
+			"decode_end" => with_reg(|r| {
+				entry(r, id).ended = true;
+			}),
+			"decode_error" => with_reg(|r| {
+				entry(r, id).errors += 1;
+			}),
 			"decode_wait" => with_reg(|r| {
 				let st = entry(r, id);
 				st.full = true;
@@ -147,13 +161,19 @@ pub fn set_budget(id: usize, budget: Option<u64>) {
 	// (called by the harness thread: the entry keeps the decoder thread's identity)
 }
 
-/// Called by the harness right after a streaming sound has been created: an entry left behind by
-/// an earlier decoder thread with the same id (ids are addresses and get reused) is discarded.
-/// If the new thread has already checked in, it re-establishes its state with its next hook call.
-pub fn adopt(id: usize) {
-	with_reg(|r| {
-		r.remove(&id);
-	});
+/// Take this before creating a streaming sound ...
+pub fn mark() -> u64 {
+	REG_COUNTER.load(Ordering::SeqCst)
+}
+
+/// ... and call this right after: waits until the new sound's decoder thread has checked in under
+/// `id` (ids are addresses and get reused, so an entry left behind by an earlier thread must not
+/// be mistaken for the new one).
+pub fn adopt(id: usize, mark: u64) {
+	let start = Instant::now();
+	while state(id).reg <= mark && start.elapsed() < Duration::from_secs(2) {
+		std::thread::sleep(Duration::from_micros(50));
+	}
 }
 
 pub fn forget(id: usize) {
@@ -187,7 +207,7 @@ pub fn wait_quiescent(streams: &[(usize, Arc<DecoderLog>)], timeout: Duration) -
 				return true;
 			}
 			let st = state(*id);
-			(st.full || st.parked) && st.seen_round == ROUND.load(Ordering::SeqCst)
+			st.ended || st.errors > 0 || ((st.full || st.parked) && st.seen_round == ROUND.load(Ordering::SeqCst))
 		});
 		if all {
 			return true;
